@@ -106,7 +106,8 @@ Ltac builder_crush :=
           | |- context [opt_bind (safe_leafname ?x) _] => destruct (safe_leafname x)
           | |- context [match safe_leafname ?x with _ => _ end] => destruct (safe_leafname x)
           end);
-  cbn [opt_bind str_is_empty]; rewrite ?g_roae_eq; try reflexivity.
+  cbn [opt_bind str_is_empty]; rewrite ?g_roae_eq; try reflexivity;
+  unfold rel3, join_with; rewrite <- ?app_assoc; cbn [app]; try reflexivity.   (* format! / `+` spellings of the same path *)
 
 Lemma g_breakpad_sym_eq : forall m,
   g_breakpad_sym_lookup m = breakpad_sym_lookup (m_debug_file m) (m_debug_identifier m).
